@@ -84,6 +84,27 @@ theorem ack_release_after_persist {n : Nat} (hn : 1 ≤ n) {s s' : State} (hr : 
     · cases h
   · cases h
 
+/-- the set of released acknowledgements changes at the persister's `ack` event and nowhere else — in particular
+`CloseWriter` with batches still waiting (introduced, not yet grabbed) releases none of them: their callers get an
+error or stay blocked, and an observed nil return after the close is enabled only if the batch is durable
+(`ack_after_persist`) -/
+theorem acked_only_by_persister_release {s s' : State} {ev : Event} (h : step s ev = some s') (hne : ev ≠ .ack) :
+    s'.acked = s.acked := by
+  cases ev <;> simp only [step, stepIntro, stepIntroMerge, stepIntroPersist, stepIntroFail, stepGrab, stepSegBegin, stepSegEnd,
+    stepMergeSegBegin, stepMergeSegEnd, stepEquiv, stepSnapBegin, stepSnapEnd, stepCommit, stepPersistFail,
+    stepCleanupSnap, stepCleanupSeg, stepReaderOpen, stepReaderClose, stepFault, stepCrash, stepOpen, stepClose, reopen] at h
+  case ack => exact absurd rfl hne
+  all_goals (repeat' split at h)
+  all_goals first | (cases h; done) | (cases h; rfl)
+
+theorem close_releases_nothing {s s' : State} (h : step s .closeWriter = some s') :
+    s'.acked = s.acked ∧ s'.waitAcks = [] ∧ s'.waitCbs = [] ∧ s'.job = none := by
+  refine ⟨acked_only_by_persister_release h (by simp), ?_⟩
+  simp only [step, stepClose] at h
+  split at h
+  · cases h; exact ⟨rfl, rfl, rfl⟩
+  · cases h
+
 /-- clean-up never removes the snapshot of an epoch that is still in `liveEpochs`, and the newest committed epoch
 is always there with its complete file (shared with C11) -/
 theorem cleanup_keeps_newest {n : Nat} (hn : 1 ≤ n) {s s' : State} (hr : Reachable n s) {e : Nat}
@@ -136,6 +157,12 @@ theorem gen_remove_exclusive_first : BlugeGen.C02.removeExclFirst = true := by d
 /-- a file is complete when Persist returns nil: open-exclusive → WriteTo → Sync → Close (the byte-exactness is C13's) -/
 theorem gen_persist_sync_order : BlugeGen.C02.persistSyncOrder = ["open-exclusive", "write", "sync", "close"] := by decide
 
+/-- acknowledgements are released ONLY by persisterLoop: no other function of package index mentions
+`Writer.rootPersisted` / `Writer.persistedCallbacks` (replaceRoot appends to them under rootLock), and `close`
+closes no channel but `closeCh` and invokes no callback — so `stepClose` may drop the waiting lists silently -/
+theorem acks_released_only_by_persister :
+    BlugeGen.C02.ackFieldUsers = ["persisterLoop", "replaceRoot"] ∧ BlugeGen.C02.closeTouchesAcks = false := by decide
+
 /-! Non-vacuity and necessity of the hypotheses (tests on concrete traces, beside the theorems). -/
 
 /-- a concrete run: one safe batch is introduced, persisted and acknowledged -/
@@ -148,6 +175,10 @@ example : (run (init 1) demo).map (fun s => (s.acked, s.disk.recoverK)) = some (
 /-- the acknowledgement cannot be observed before the persister released it -/
 example : (run (init 1) [.openWriter, .intro 1 (some 2) [] true false, .persistGrab, .segBegin 2, .segEnd 2 true true,
     .introPersist 2, .snapBegin, .ackObs 1]) = none := by decide
+
+/-- Close() while batch 2 is introduced but not grabbed: its acknowledgement is never released (the nil return is not enabled) -/
+example : run (init 1) (demo ++ [.intro 3 (some 3) [] true false, .closeWriter, .ackObs 2]) = none := by decide
+example : (run (init 1) (demo ++ [.intro 3 (some 3) [] true false, .closeWriter])).map (fun s => (s.acked, s.waitAcks)) = some ([1], []) := by decide
 
 /-- the assumption `Event.exact` (C13) is needed: if the snapshot Persist returns nil but the file is not
 the bytes written, the batch is acknowledged and recovery finds nothing -/
